@@ -10,7 +10,9 @@ Record got := { g_from : nat; g_seq : nat; g_sender_ok : bool }.
 Record case := { c_senders : nat; c_per_sender : nat;   (* chain mode: 1 sender, per_sender = total *)
                  c_got : list got; c_hang : bool;
                  c_overlap : bool;        (* two Receive calls in progress at once *)
-                 c_restarts : nat }.      (* scripted panics (each delivered once, to the incarnation it kills) *)
+                 c_restarts : nat;
+                 c_spawnrace : bool;      (* the messages were sent while the actor's Started handler was still running *)
+                 c_spawn_early : bool }.  (* Spawn returned before Started had been handled *)      (* scripted panics (each delivered once, to the incarnation it kills) *)
 
 (* the subsequence of sequence numbers received from sender s *)
 Definition seqs_of (s : nat) (l : list got) : list nat :=
@@ -19,11 +21,16 @@ Definition seqs_of (s : nat) (l : list got) : list nat :=
 Fixpoint list_eqb (a b : list nat) : bool :=
   match a, b with [], [] => true | x :: a', y :: b' => Nat.eqb x y && list_eqb a' b' | _, _ => false end.
 
+(* from = 9 marks the Started delivery in spawn-race runs *)
+Definition is_marker (g : got) : bool := Nat.eqb (g_from g) 9.
+Definition msgs_of (l : list got) : list got := filter (fun g => negb (is_marker g)) l.
+
 Definition oracle (c : case) : bool :=
-  negb (c_hang c) && negb (c_overlap c) &&
-  Nat.eqb (length (c_got c)) (c_senders c * c_per_sender c) &&
+  negb (c_hang c) && negb (c_overlap c) && negb (c_spawn_early c) &&
+  (if c_spawnrace c then match c_got c with g :: _ => is_marker g | [] => false end else true) &&
+  Nat.eqb (length (msgs_of (c_got c))) (c_senders c * c_per_sender c) &&
   forallb g_sender_ok (c_got c) &&
-  forallb (fun s => list_eqb (seqs_of s (c_got c)) (seq 1 (c_per_sender c))) (seq 0 (c_senders c)).
+  forallb (fun s => list_eqb (seqs_of s (msgs_of (c_got c))) (seq 1 (c_per_sender c))) (seq 0 (c_senders c)).
 
 (* there is no schedule control here, so nothing to replay in the model *)
 Definition corr (c : case) : bool := true.
@@ -34,7 +41,8 @@ Definition branches (c : case) : list nat :=
   (if Nat.ltb 1 (c_senders c) then [1] else []) ++
   (if Nat.ltb 4096 (c_senders c * c_per_sender c) then [2] else []) ++
   (if Nat.eqb (c_senders c) 1 && Nat.ltb 300 (c_per_sender c) then [3] else []) ++
-  (if Nat.ltb 0 (c_restarts c) then [4] else []).
+  (if Nat.ltb 0 (c_restarts c) then [4] else []) ++
+  (if c_spawnrace c then [5] else []).
 
 Fixpoint failing {A} (f : A -> bool) (i : nat) (l : list A) : list nat :=
   match l with [] => [] | a :: l' => (if f a then [] else [i]) ++ failing f (S i) l' end.
